@@ -1,5 +1,6 @@
 import OrsoVerif.Model.Encodings
 import OrsoVerif.Lemmas.Encodings
+import OrsoVerif.Lemmas.EncodingsGen
 /-!
 # C09 — Compressed column encodings are lossless
 
@@ -208,6 +209,176 @@ theorem function_expand {γ : Type} (binding : γ → α) (cfg : γ) (n : Nat) :
     ∀ x ∈ functionExpand binding cfg n, x = binding cfg :=
   ⟨by simp [functionExpand], fun x hx => (List.mem_replicate.mp hx).2⟩
 
+/-! ## The code as it stands: the statement-by-statement translations of `orso/schema.py`
+
+`Generated/Encodings.lean` is rewritten from the working tree on every run (`harness/pystmt.py`):
+the loops, guards, appends, `[value] * length`, the order of the statements and the numpy calls of the
+nine methods are *in* these definitions.  The theorems below say that the translated code computes
+exactly what the recursive model computes (so every theorem above is a theorem about the code as
+extracted), and restate the property's main clauses directly on the translated code. -/
+
+open Gen.Encodings in
+/-- One step of the generated run-detection loop, whatever the order of its assignments. -/
+theorem gen_rle_loop_step (eq : α → α → Bool) (p : α) (n : Nat) (rl : List Nat) (rv : List α) (v : α) :
+    rleInit_loop1 eq (p, n, rl, rv) v =
+      if eq v p then (p, n + 1, rl, rv) else (v, Gen.Encodings.runStart, rl ++ [n], rv ++ [p]) := by
+  cases h : eq v p <;> simp [rleInit_loop1, h, Gen.Encodings.runStart]
+
+
+open Gen.Encodings in
+/-- The generated fold, followed by the two final appends, is the recursive run detection. -/
+theorem gen_rle_loop_fold (eq : α → α → Bool) (vs : List α) (p : α) (n : Nat) (rl : List Nat) (rv : List α) :
+    rleFinish (List.foldl (rleInit_loop1 eq) (p, n, rl, rv) vs) =
+    (rv ++ (rleLoop eq p n vs).map (·.1), rl ++ (rleLoop eq p n vs).map (·.2)) := by
+  induction vs generalizing p n rl rv with
+  | nil => simp [rleLoop, rleFinish]
+  | cons v vs ih =>
+    rw [List.foldl_cons, gen_rle_loop_step]
+    cases h : eq v p
+    · simp only [Bool.false_eq_true, if_false]
+      rw [ih]
+      simp [rleLoop, h, Gen.Encodings.runStart]
+    · simp only [if_true]
+      rw [ih]
+      simp [rleLoop, h]
+
+open Gen.Encodings in
+/-- The translated expansion loop (`materialized.extend([value] * length)` over the zipped runs). -/
+theorem gen_rle_materialize_fold (acc : List α) (ps : List (α × Nat)) :
+    List.foldl rleMaterialize_loop1 acc ps = acc ++ ps.flatMap fun p => List.replicate p.2 p.1 := by
+  induction ps generalizing acc with
+  | nil => simp
+  | cons p t ih =>
+    obtain ⟨v, l⟩ := p
+    rw [List.foldl_cons, ih]
+    simp [rleMaterialize_loop1]
+
+
+theorem gen_rle_init_refines (eq : α → α → Bool) (xs : List α) :
+    Gen.Encodings.rleInit eq xs = some ((rleEncode eq xs).values, (rleEncode eq xs).lengths) := by
+  cases xs with
+  | nil => simp [Gen.Encodings.rleInit, rleEncode]
+  | cons x t =>
+    have h := gen_rle_loop_fold eq t x Gen.Encodings.runStart [] []
+    simp only [rleFinish, List.nil_append] at h
+    simp [Gen.Encodings.rleInit, rleEncode, Gen.Encodings.runStart] at h ⊢
+    exact h
+
+theorem gen_rle_materialize_refines (vs : List α) (ls : List Nat) :
+    Gen.Encodings.rleMaterialize vs ls = some (rleDecode ⟨vs, ls⟩) := by
+  simp [Gen.Encodings.rleMaterialize, gen_rle_materialize_fold, rleDecode]
+
+/-- the translated code runs: `RLEColumn([3,3,5,3])` stores `[3,5,3]` / `[2,1,1]` and expands back -/
+example : Gen.Encodings.rleInit (fun a b : Nat => a == b) [3, 3, 5, 3] = some ([3, 5, 3], [2, 1, 1]) ∧
+    Gen.Encodings.rleMaterialize [3, 5, 3] [2, 1, 1] = some [3, 3, 5, 3] := by decide
+
+theorem gen_function_materialize_refines {γ : Type} (binding : γ → α) (cfg : γ) (n : Nat) :
+    Gen.Encodings.functionMaterialize binding cfg n = some (functionExpand binding cfg n) := by
+  simp [Gen.Encodings.functionMaterialize, functionExpand]
+
+theorem gen_const_init_refines (v : α) (n : Nat) :
+    Gen.Encodings.constInit v = some (constEncode v n).values := by
+  simp [Gen.Encodings.constInit, constEncode]
+
+theorem gen_const_materialize_refines (n : Nat) (vs : List α) :
+    Gen.Encodings.constMaterialize n vs = constDecode ⟨vs, n⟩ := by
+  simp only [Gen.Encodings.constMaterialize, Np.fullFrom, constDecode]
+  rfl
+
+theorem gen_sparse_init_refines (ne : α → α → Bool) (isPyNumber : α → Bool) (xs : List α) (d : α) :
+    Gen.Encodings.sparseInit ne isPyNumber xs d =
+      some ((sparseEncode ne d xs).indices, (sparseEncode ne d xs).values, (sparseEncode ne d xs).total) := by
+  have h1 := whereFrom_scan ne d xs 0
+  have h2 := take_scan ne d xs []
+  simp only [List.length_nil, List.nil_append] at h2
+  cases hp : isPyNumber d <;>
+    simp [Gen.Encodings.sparseInit, hp, Np.where, h1, h2, sparseEncode]
+
+example : Gen.Encodings.sparseInit (fun a b : Nat => a != b) (fun _ => true) [7, 0, 9] 0 = some ([0, 2], [7, 9], 3) := by
+  decide
+
+theorem gen_sparse_materialize_refines {DT : Type} (cast : DT → α → Option α) (t : DT) (vs : List α)
+    (d : α) (idx : List Nat) (n : Nat) :
+    Gen.Encodings.sparseMaterialize cast t vs d idx n =
+      (cast t d).bind fun d' => (vs.mapM (cast t)).bind fun vs' => sparseDecode d' ⟨idx, vs', n⟩ := by
+  simp only [Gen.Encodings.sparseMaterialize, Np.fullCast, Np.putCast, sparseDecode]
+  cases cast t d <;> simp
+
+theorem gen_dict_init_refines [DecidableEq α] (le : α → α → Bool) (xs : List α) :
+    Gen.Encodings.dictInit le xs = some ((dictEncode le xs).values, (dictEncode le xs).codes) := by
+  simp [Gen.Encodings.dictInit, dictEncode, Np.uniqueValues, Np.uniqueInverse]
+
+theorem gen_dict_materialize_refines (vs : List α) (cs : List Nat) :
+    Gen.Encodings.dictMaterialize vs cs = dictDecode ⟨vs, cs⟩ := by
+  simp [Gen.Encodings.dictMaterialize, Np.take, dictDecode]
+
+/-- The model's `sparseMaterialize` is the translated `SparseColumn.materialize` run with numpy's cast
+into the result dtype. -/
+theorem model_sparse_materialize_is_generated (i2f : Int → UInt64) (d : PyVal) (vdt : DType)
+    (e : Sparse PyVal) :
+    sparseMaterialize i2f d vdt e = (scalarDType d).bind fun ddt =>
+      (Gen.Encodings.sparseMaterialize (castInto i2f) (DType.join vdt ddt) e.values d e.indices e.total).map
+        fun out => (DType.join vdt ddt, out) := by
+  unfold sparseMaterialize
+  cases scalarDType d with
+  | none => rfl
+  | some ddt =>
+    simp only [Option.bind_eq_bind, Option.bind_some, gen_sparse_materialize_refines]
+    cases castInto i2f (DType.join vdt ddt) d with
+    | none => rfl
+    | some d' =>
+      simp only [Option.bind_some]
+      cases e.values.mapM (castInto i2f (DType.join vdt ddt)) with
+      | none => rfl
+      | some vs => simp only [Option.bind_some]; cases sparseDecode d' _ <;> rfl
+
+/-- **RLE, on the translated code**: `RLEColumn(values=xs).materialize()` is `xs`. -/
+theorem source_rle_roundtrip (eq : α → α → Bool) (heq : ∀ a b, eq a b = true → a = b) (xs : List α) :
+    ((Gen.Encodings.rleInit eq xs).bind fun e => Gen.Encodings.rleMaterialize e.1 e.2) = some xs := by
+  rw [gen_rle_init_refines, Option.bind_some, gen_rle_materialize_refines]
+  exact congrArg some (rle_roundtrip eq heq xs)
+
+/-- **Dictionary, on the translated code.** -/
+theorem source_dict_roundtrip [DecidableEq α] (le : α → α → Bool) (xs : List α) :
+    ((Gen.Encodings.dictInit le xs).bind fun e => Gen.Encodings.dictMaterialize e.1 e.2) = some xs := by
+  rw [gen_dict_init_refines, Option.bind_some, gen_dict_materialize_refines]
+  exact dict_roundtrip le xs
+
+/-- **Sparse, on the translated code** (values held as they are: the identity cast; the dtype layer is
+`sparse_dtype_lossless`). -/
+theorem source_sparse_roundtrip (ne : α → α → Bool) (isPyNumber : α → Bool) (d : α)
+    (hne : ∀ a, ne a d = false → a = d) (xs : List α) :
+    ((Gen.Encodings.sparseInit ne isPyNumber xs d).bind fun e =>
+      Gen.Encodings.sparseMaterialize (fun (_ : Unit) v => some v) () e.2.1 d e.1 e.2.2) = some xs := by
+  rw [gen_sparse_init_refines, Option.bind_some, gen_sparse_materialize_refines]
+  have hm : ∀ l : List α, l.mapM (fun v => some v) = some l := by
+    intro l; induction l with
+    | nil => rfl
+    | cons a t ih => simp [List.mapM_cons, ih]
+  simp only [Option.bind_some, hm]
+  exact sparse_roundtrip ne d hne xs
+
+/-- **Constant and function columns, on the translated code.** -/
+theorem source_constant_function_expand {γ : Type} (v : α) (n : Nat) (binding : γ → α) (cfg : γ) :
+    ((Gen.Encodings.constInit v).bind fun vs => Gen.Encodings.constMaterialize n vs) = some (List.replicate n v) ∧
+    Gen.Encodings.functionMaterialize binding cfg n = some (List.replicate n (binding cfg)) := by
+  refine ⟨?_, gen_function_materialize_refines binding cfg n⟩
+  rw [gen_const_init_refines v n, Option.bind_some, gen_const_materialize_refines]
+  rfl
+
+/-- **Map commutes with expansion, on the translated `materialize` methods** (for every stored form). -/
+theorem source_map_commutes (f : α → β) (vs : List α) (ls cs : List Nat) (n : Nat) :
+    Gen.Encodings.rleMaterialize (vs.map f) ls = (Gen.Encodings.rleMaterialize vs ls).map (List.map f) ∧
+    Gen.Encodings.dictMaterialize (vs.map f) cs = (Gen.Encodings.dictMaterialize vs cs).map (List.map f) ∧
+    Gen.Encodings.constMaterialize n (vs.map f) = (Gen.Encodings.constMaterialize n vs).map (List.map f) := by
+  refine ⟨?_, ?_, ?_⟩
+  · rw [gen_rle_materialize_refines, gen_rle_materialize_refines]
+    exact congrArg some (map_commutes_rle f ⟨vs, ls⟩)
+  · rw [gen_dict_materialize_refines, gen_dict_materialize_refines]
+    exact map_commutes_dict f ⟨vs, cs⟩
+  · rw [gen_const_materialize_refines, gen_const_materialize_refines]
+    exact map_commutes_constant f ⟨vs, n⟩
+
 /-! ## The result dtype of the repaired `SparseColumn.materialize` -/
 
 /-- The result dtype is an upper bound of the stored values' dtype and of the default's dtype. -/
@@ -305,6 +476,141 @@ theorem pinned_cast_narrows (f2i : UInt64 → Int) (b : UInt64) (s : String) (w 
     (s.toList.take w).length ≤ w :=
   ⟨rfl, rfl, by simp [List.length_take]; omega⟩
 
+/-! ## numpy's real promotion table (asked of the installed numpy on every run)
+
+`Generated/NpDtypes.lean` holds `dtype.kind`, `iinfo`, `finfo` and all 196 entries of
+`numpy.promote_types` for bool, int8..int64, uint8..uint64, float16..float64, complex64/128;
+`Gen.Encodings.sparseResultDType` is the dtype decision of `SparseColumn.materialize` as written in
+the source (the test over the dtype kinds and both branches).  The theorems are over the whole
+table. -/
+
+open Gen.NpDtypes in
+/-- numpy's promotion is symmetric and idempotent on the whole table. -/
+theorem promote_table_comm (a b : Num) : promote a b = promote b a ∧ promote a a = a := by
+  constructor
+  · cases a <;> cases b <;> rfl
+  · cases a <;> rfl
+
+open Gen.NpDtypes in
+/-- **The promoted dtype holds every value of either argument exactly, with one exception**: a
+64-bit integer dtype promoted to a float / complex dtype (`int64` with any float, `uint64` with a
+signed integer or a float).  Decided on all 196 entries from numpy's `iinfo` / `finfo`. -/
+theorem promote_table_exact_iff (a b : Num) :
+    a.exactInto (promote a b) = !(a.lossy64 (promote a b)) := by
+  cases a <;> cases b <;> decide
+
+open Gen.NpDtypes in
+/-- What `exactInto` means for integers: every integer value of `a` is a value of `b` (for a float
+dtype: representable with its precision and exponent range). -/
+theorem exactInto_sound_int (a b : Num) (h : a.exactInto b = true) (i : Int) (hi : a.holdsInt i) :
+    b.holdsInt i := by
+  cases a <;> cases b <;> first
+    | (exfalso; revert h; decide)
+    | (simp only [Num.holdsInt, intRange, floatFormat] at hi ⊢; omega)
+    | (simp only [Num.holdsInt, intRange, floatFormat] at hi ⊢
+       exact ⟨i, 0, by simp, by omega, by omega, by omega⟩)
+    | (simp only [Num.holdsInt, intRange, floatFormat] at hi ⊢
+       obtain ⟨m, e, h1, h2, h3, h4⟩ := hi
+       exact ⟨m, e, h1, by omega, by omega, by omega⟩)
+
+open Gen.NpDtypes in
+/-- The exception is real (this is the open finding C09-K01 on the table): numpy promotes `int64`
+with `float64` to `float64`, `2^53 + 1` is an `int64` and is not a `float64`. -/
+theorem promote_int64_float64_lossy :
+    promote .i64 .f64 = .f64 ∧ Num.holdsInt .i64 (2 ^ 53 + 1) ∧ ¬ Num.holdsInt .f64 (2 ^ 53 + 1) := by
+  refine ⟨rfl, by simp [Num.holdsInt, intRange], ?_⟩
+  simp only [Num.holdsInt, intRange, floatFormat]
+  rintro ⟨m, e, h, h1, h2, _⟩
+  cases e with
+  | zero => simp at h; omega
+  | succ k =>
+    have h2' : (m * 2 ^ (k + 1)) % 2 = 0 := by
+      rw [Int.pow_succ, ← Int.mul_assoc]; exact Int.mul_emod_left _ 2
+    omega
+
+open Gen.NpDtypes in
+/-- **The result dtype chosen by the source holds the stored values and the default** — for every
+pair of dtypes (all numeric dtypes, text of every width, object), except the 64-bit-integer-into-
+float promotions.  Text is never cut (`w ≤ max w w'`), numbers against text or nulls go to `object`. -/
+theorem sparse_result_dtype_holds (v d : NpDType) :
+    (v.holdsAll (Gen.Encodings.sparseResultDType v d) = true ∨
+      v.lossy64 (Gen.Encodings.sparseResultDType v d) = true) ∧
+    (d.holdsAll (Gen.Encodings.sparseResultDType v d) = true ∨
+      d.lossy64 (Gen.Encodings.sparseResultDType v d) = true) := by
+  cases v with
+  | num a =>
+    cases d with
+    | num b => cases a <;> cases b <;> decide
+    | str w => cases a <;> simp [Gen.Encodings.sparseResultDType, NpDType.kind, kind, distinctCount, NpDType.holdsAll]
+    | object => cases a <;> simp [Gen.Encodings.sparseResultDType, NpDType.kind, kind, distinctCount, NpDType.holdsAll]
+  | str w =>
+    cases d with
+    | num b => cases b <;> simp [Gen.Encodings.sparseResultDType, NpDType.kind, kind, distinctCount, NpDType.holdsAll]
+    | str w' =>
+      simp [Gen.Encodings.sparseResultDType, NpDType.kind, distinctCount, NpDType.promote, NpDType.holdsAll] <;> omega
+    | object => simp [Gen.Encodings.sparseResultDType, NpDType.kind, distinctCount, NpDType.holdsAll]
+  | object =>
+    cases d with
+    | num b => cases b <;> simp [Gen.Encodings.sparseResultDType, NpDType.kind, kind, distinctCount, NpDType.holdsAll]
+    | str w => simp [Gen.Encodings.sparseResultDType, NpDType.kind, distinctCount, NpDType.holdsAll]
+    | object => simp [Gen.Encodings.sparseResultDType, NpDType.kind, distinctCount, NpDType.holdsAll]
+
+example : Gen.Encodings.sparseResultDType (.num .i64) (.num .f64) = .num .f64 ∧
+    Gen.Encodings.sparseResultDType (.str 2) (.str 5) = .str 5 ∧
+    Gen.Encodings.sparseResultDType (.num .i8) (.str 5) = .object ∧
+    Gen.Encodings.sparseResultDType (.num .u8) (.num .i8) = .num .i16 := by decide
+
+open Gen.NpDtypes in
+/-- **The five-point lattice of the model is a sound abstraction of the source's decision over
+numpy's real table**: forgetting the widths, the extracted `sparseResultDType` is `DType.join` —
+for all dtypes except `uint64` against a signed integer dtype (see the next theorem).  This is what
+ties `sparse_dtype_lossless` (stated with `DType.join`) to the code and to numpy. -/
+theorem sparse_result_dtype_abstracts (v d : NpDType) (tv td : DType)
+    (hv : v.abs = some tv) (hd : d.abs = some td) (hmix : v.mixedU64 d = false) :
+    (Gen.Encodings.sparseResultDType v d).abs = some (DType.join tv td) := by
+  cases v with
+  | num a =>
+    cases d with
+    | num b =>
+      cases a <;> cases b <;> simp [NpDType.abs, kind] at hv hd <;> subst hv <;> subst hd <;>
+        first | decide | (exfalso; revert hmix; decide)
+    | str w =>
+      cases a <;> simp [NpDType.abs, kind] at hv hd <;> subst hv <;> subst hd <;>
+        simp [Gen.Encodings.sparseResultDType, NpDType.kind, kind, distinctCount, NpDType.abs, DType.join]
+    | object =>
+      cases a <;> simp [NpDType.abs, kind] at hv hd <;> subst hv <;> subst hd <;>
+        simp [Gen.Encodings.sparseResultDType, NpDType.kind, kind, distinctCount, NpDType.abs, DType.join]
+  | str w =>
+    cases d with
+    | num b =>
+      cases b <;> simp [NpDType.abs, kind] at hv hd <;> subst hv <;> subst hd <;>
+        simp [Gen.Encodings.sparseResultDType, NpDType.kind, kind, distinctCount, NpDType.abs, DType.join]
+    | str w' =>
+      simp [NpDType.abs] at hv hd; subst hv; subst hd
+      simp [Gen.Encodings.sparseResultDType, NpDType.kind, distinctCount, NpDType.promote, NpDType.abs, DType.join] <;> omega
+    | object =>
+      simp [NpDType.abs] at hv hd; subst hv; subst hd
+      simp [Gen.Encodings.sparseResultDType, NpDType.kind, distinctCount, NpDType.abs, DType.join]
+  | object =>
+    simp [NpDType.abs] at hv; subst hv
+    cases d with
+    | num b =>
+      cases b <;> simp [NpDType.abs, kind] at hd <;> subst hd <;>
+        simp [Gen.Encodings.sparseResultDType, NpDType.kind, kind, distinctCount, NpDType.abs, DType.join]
+    | str w =>
+      simp [NpDType.abs] at hd; subst hd
+      simp [Gen.Encodings.sparseResultDType, NpDType.kind, distinctCount, NpDType.abs, DType.join]
+    | object =>
+      simp [NpDType.abs] at hd; subst hd
+      simp [Gen.Encodings.sparseResultDType, NpDType.kind, distinctCount, NpDType.abs, DType.join]
+
+/-- `uint64` against a signed integer dtype: no integer dtype holds both; the source's decision gives
+`float64` (the abstraction `int ⊔ int = int` does not describe this pair — it is outside the
+property's integers, which lie within `int64`, and is of the class of C09-K01 beyond `2^53`). -/
+theorem sparse_result_dtype_mixed_u64 (a b : Num) (h : a.mixedU64 b = true) :
+    Gen.Encodings.sparseResultDType (.num a) (.num b) = .num .f64 := by
+  cases a <;> cases b <;> first | decide | (exfalso; revert h; decide)
+
 /-! ## Non-vacuity -/
 
 example : (rleEncode (fun a b : Nat => a == b) [3, 3, 5, 3]).values = [3, 5, 3] ∧
@@ -327,5 +633,8 @@ example : sparseDecode 0 ((sparseEncode (fun a b : Nat => a != b) 0 [7, 0, 9]).m
 /-- the hypotheses of `sparse_dtype_lossless` are satisfiable: floats with an integer default -/
 example : scalarDType (.int 0) = some .int ∧ holds .int (.int 0) = true ∧
     holds .float (.float 0x3FF8000000000000) = true ∧ DType.join .float .int = .float := by decide
+
+example : Num.exactInto .i32 .f64 = true ∧ Num.exactInto .i64 .f64 = false ∧ Num.exactInto .f32 .f64 = true ∧
+    Num.exactInto .f64 .f32 = false ∧ Num.exactInto .u8 .i8 = false := by decide
 
 end C09
